@@ -317,6 +317,7 @@ class Env:
         # wall clock between 2001 and year ~2250, non-decreasing
         self.w.assume(z3.UGE(t, z3.BitVecVal(10 ** 12, 64)))
         self.w.assume(z3.ULE(t, z3.BitVecVal(9 * 10 ** 12, 64)))
+        self.w.var_ranges[str(t)] = (10 ** 12, 9 * 10 ** 12)
         if self.clock_terms:
             self.w.assume(z3.UGE(t, self.clock_terms[-1]))
         self.clock_terms.append(t)
